@@ -152,6 +152,12 @@ def w_frames(acc, frame, L, prefix):
             acc.run("text", o_text, {"text": text, "fmt": fi}, True)
 
 
+def w_large(acc, n):
+    for fi in (0, 2, 3):
+        acc.run("roundtrip", o_roundtrip, {"deriv": bibgen.large_document(n, ref="s0"), "fmt": FORMATS_E[fi]}, True)
+    acc.classes["large-document"] += 1
+
+
 def st_format_c05():
     from hypothesis import strategies as st
 
@@ -210,6 +216,7 @@ def run(chk):
     tasks = []
     for fr in FRAMES:
         tasks += [("w_frames", (fr,) + t) for t in tokens.seq_tasks(tokens.SIGMA_F, L, prefix_len=1)]
+    tasks += [("w_large", (n,)) for n in (130, 300, 1100)]
     n_rand = 24000 if quick else 400000
     shards = 16 if quick else 64
     for s in range(shards):
